@@ -120,6 +120,12 @@ class Ctx:
                         summ += " | " + l.strip()[:200]; break
                 outs[lo] = "CRASH " + summ
                 return
+            if rc != 0 and len(out) == hi - lo and "LeakSanitizer" in err:
+                # every line was answered and the report came at exit: a leak of SOME line of the batch, not a death of
+                # the last one - halve until the leaking line(s) are alone
+                mid = (lo + hi) // 2
+                go(lo, mid); go(mid, hi)
+                return
             # the driver printed `len(out)` complete lines before dying
             good = min(len(out), hi - lo - 1) if rc != 0 else 0
             if good > 0:
